@@ -282,9 +282,9 @@ func runC11(cfg c11Cfg) (violation, inconclusive string, readsDuring int) {
 // RunC11 runs the concurrent refresh scenarios.
 func RunC11(col *core.Collector, tier, variant string, seed uint64, shard, nshards int, replayDir, outBase string) {
 	col.Note("rule: concurrent part: a gated loader keeps a reload in flight while readers read (they must keep getting the old value); Get-triggered reloads, two concurrent manual Refresh calls and BulkRefresh, outcomes success / failure / not-found; whoever receives a refresh result must find the outcome applied; non-trivial = at least 5 reads were served while the reload was in flight; distinct = scenario parameters")
-	n := 600
+	n := 2400
 	if tier == "thorough" {
-		n = 20000
+		n = 60000
 	}
 	if variant != "plain" {
 		n /= 3
